@@ -674,9 +674,9 @@ func (env *SpecEnv) evalCall(x *ECall) specVal {
 			return specVal{v: v.v, t: env.resolveType(ts.Val)}
 		case "loglen":
 			return specVal{v: leaf(u.logLen(env.st)), t: types.Typ[types.Int]}
-		case "logverb", "logobj", "lognamespaced", "logns":
+		case "logverb", "logobj", "lognamespaced", "logns", "logtype":
 			k := env.evalTerm(x.Args[0])
-			f := map[string]string{"logverb": "verb", "logobj": "obj", "lognamespaced": "nsd", "logns": "ns"}[id.Name]
+			f := map[string]string{"logverb": "verb", "logobj": "obj", "lognamespaced": "nsd", "logns": "ns", "logtype": "typ"}[id.Name]
 			var t types.Type
 			if id.Name == "logverb" || id.Name == "logns" {
 				t = types.Typ[types.String]
@@ -696,7 +696,11 @@ func (env *SpecEnv) evalCall(x *ECall) specVal {
 			ft, _ := u.ifaceFns()
 			return specVal{v: leaf(c.App(ft, env.evalTerm(x.Args[0])))}
 		case "typeid":
-			t := env.resolveType(exprString(x.Args[0]))
+			tn := exprString(x.Args[0])
+			if es, ok := x.Args[0].(*EStr); ok {
+				tn = es.Val
+			}
+			t := env.resolveType(tn)
 			return specVal{v: leaf(u.typeID(t))}
 		case "unchanged":
 			v := env.evalLazy(x.Args[0])
